@@ -3,8 +3,12 @@
 
    The Go map `circle map[uint32]string` is represented by an association list kept in
    strictly increasing key order (a canonical representation of a finite map: Go's map has
-   no order of its own); `sortedHash` — which updateSortedHash rebuilds after every
-   membership change by collecting the keys and sorting them — is then `map fst circle`.
+   no order of its own).  `sortedHash []uint32` is a field of the state of its own — the
+   cache the lookups read — which updateSortedHash rebuilds after every membership change by
+   collecting the keys of the map and sorting them (sort_u32; whether the backing array is
+   reused through `[:0]` or re-allocated is invisible: the rebuilt slice starts empty either
+   way).  That the cache always equals the sorted key set of the map, whatever order the
+   map is iterated in, is proved (Proofs.v), not built in.
    `nodes map[string]bool` is a duplicate-free list.  Member names and keys are byte
    strings (lists of byte values).  The hash function is a parameter of everything below;
    `fnv1a` is the code's own hashKey. *)
@@ -41,9 +45,20 @@ Definition replica (n : name) (i : Z) : list Z := n ++ 45 :: decimal i.
 Definition replicas (n : name) : list (list Z) :=
   map (fun i => replica n (Z.of_nat i)) (seq 0 (Z.to_nat collections_consistent_ReplicaCount)).
 
-Record ring := mkRing { circle : list (Z * name); nodes : list name }.
+Record ring := mkRing { circle : list (Z * name); nodes : list name; sorted_hash : list Z }.
 
-Definition empty : ring := mkRing [] [].
+Definition empty : ring := mkRing [] [] [].
+
+(* sort.Sort(collections.Uint32Slice(hashes)): ascending order *)
+Fixpoint insert_sorted (x : Z) (l : list Z) : list Z :=
+  match l with
+  | [] => [x]
+  | y :: r => if x <=? y then x :: l else y :: insert_sorted x r
+  end.
+Definition sort_u32 (l : list Z) : list Z := fold_right insert_sorted [] l.
+
+(* updateSortedHash: `for k := range c.circle { hashes = append(hashes, k) }` then sort *)
+Definition update_sorted_hash (c : list (Z * name)) : list Z := sort_u32 (map fst c).
 
 Fixpoint mem_name (n : name) (l : list name) : bool :=
   match l with
@@ -82,16 +97,13 @@ Section Ring.
   (* AddNode *)
   Definition add_node (n : name) (s : ring) : ring :=
     if mem_name n (nodes s) then s
-    else mkRing (fold_left (fun c p => circle_add p n c) (points n) (circle s))
-                (n :: nodes s).
+    else let c := fold_left (fun c p => circle_add p n c) (points n) (circle s) in
+         mkRing c (n :: nodes s) (update_sorted_hash c).
 
   (* RemoveNode *)
   Definition remove_node (n : name) (s : ring) : ring :=
-    mkRing (fold_left (fun c p => circle_del p n c) (points n) (circle s))
-           (filter (fun m => negb (name_eqb m n)) (nodes s)).
-
-  (* updateSortedHash: keys of the circle, sorted *)
-  Definition sorted_hash (s : ring) : list Z := map fst (circle s).
+    let c := fold_left (fun c p => circle_del p n c) (points n) (circle s) in
+    mkRing c (filter (fun m => negb (name_eqb m n)) (nodes s)) (update_sorted_hash c).
 
   (* search: the loop `for lo < hi { mid := lo + (hi-lo)/2; if sh[mid] <= hash { lo = mid+1 }
      else { hi = mid } }`; every iteration shrinks hi-lo, so length+1 iterations suffice *)
